@@ -138,6 +138,7 @@ func CheckC20(run *evid.Run) {
 		}
 		ref := map[string][]byte{}
 		idents := map[string]*idp.Identity{} // name -> the identity its first creation yielded
+		var identNames []string
 		var prevIdent *idp.Identity          // the identity of the previous identity operation (usually another name)
 		var ids []string
 		restarts := 0
@@ -383,6 +384,12 @@ func CheckC20(run *evid.Run) {
 			default:
 				// identity creation: twice, possibly on different instances
 				name := fmt.Sprintf("user-%d-%d", i, rng.Intn(6))
+				if len(identNames) > 0 && rng.Intn(6) == 0 {
+					// an id that LOOKS like an identity id and names a key the keystore holds: the id of an earlier identity,
+					// fed back in as an id (an identity derived from an identity)
+					name = idents[identNames[rng.Intn(len(identNames))]].ID
+					run.Count("identities_named_like_an_earlier_identity_id", 1)
+				}
 				a, err1 := idp.CreateIdentity(ctx, &idp.CreateIdentityOptions{Keystore: inst[who], ID: name, Type: "orbitdb"})
 				who2 := rng.Intn(len(inst))
 				b, err2 := idp.CreateIdentity(ctx, &idp.CreateIdentityOptions{Keystore: inst[who2], ID: name, Type: "orbitdb"})
@@ -397,6 +404,7 @@ func CheckC20(run *evid.Run) {
 				}
 				if first, ok := idents[name]; !ok {
 					idents[name] = a
+					identNames = append(identNames, name)
 				} else if f := identityDiff(first, a); f != "" {
 					run.Violate("C20/identity-unstable", det("field", f, "after", "earlier creation in this sequence"), wit(), "creating the identity %q again later in the sequence gave a different %s", name, f)
 				}
